@@ -11,7 +11,9 @@ from report import AnalysisBroken
 LEVEL = 'other'
 # external callees the library may use, with the index of pointer arguments they write through (None = none)
 ALLOWED = {
-    'malloc': [], 'free': [], 'strndup': [], 'strlen': [], 'strchr': [], 'strrchr': [], 'strspn': [], 'strncmp': [], 'strncasecmp': [], 'memcmp': [], 'memchr': [],
+    'malloc': [], 'calloc': [], 'realloc': [], 'free': [], 'strndup': [], 'strdup': [], 'strlen': [], 'strnlen': [], 'strchr': [], 'strrchr': [], 'strspn': [], 'strcspn': [], 'strpbrk': [], 'strstr': [],
+    'strcmp': [], 'strncmp': [], 'strcasecmp': [], 'strncasecmp': [], 'memcmp': [], 'memchr': [], 'memrchr': [], 'strcpy': [0], 'strncpy': [0], 'strcat': [0], 'strncat': [0], 'memmove': [0], 'memset': [0],
+    'tolower': [], 'toupper': [], '__ctype_tolower_loc': [], '__ctype_toupper_loc': [], 'abs': [], 'labs': [], 'bsearch': [], 'snprintf': [0], 'llvm.memmove.p0i8.p0i8.i64': [0],
     'memcpy': [0], 'llvm.memcpy.p0i8.p0i8.i64': [0], 'llvm.memset.p0i8.i64': [0], '__ctype_b_loc': [], '__assert_fail': [], 'abort': [],
     'idn2_to_ascii_8z': [1], 'idn2_lookup_ul': [1], 'idn2_strerror': [], 'idna_to_ascii_lz': [1], 'idna_to_ascii_8z': [1], 'idna_strerror': [],
     'idn_resconf_initialize': [], 'idn_resconf_create': [0], 'idn_resconf_destroy': [], 'idn_res_encodename': [3], 'idn_result_tostring': [],
